@@ -68,7 +68,7 @@ TEXT = {
         "technique": "Rocq theorems over a Gallina model + differential correspondence + property oracle",
     },
     "C04": {
-        "text": "All leaf decoders and every primitive Unpack are proved total (Ok or Err, the model's panic primitives unreachable), reads are proved bounded by the input, the bitmap loop is proved to terminate within its fuel; composite/message decoding carries explicit Panic/OutOfFuel outcomes in the model and is compared with the library (each run in a child process under ulimit -v and a timeout) on mutated, truncated and adversarial inputs. Time and allocation are measured, not proved (partial).",
+        "text": "All leaf decoders and every primitive Unpack are proved total (Ok or Err, the model's panic primitives unreachable), reads are proved bounded by the input, what a decoder returns is at most twice and what a primitive field holds at most four times the bytes consumed, the bitmap loop is proved to terminate within its fuel; every field (any nesting, all three composite modes), every message over well-formed specs and every track field (Unpack and SetBytes) returns a count or an error for every byte string - the model's Panic and out-of-fuel outcomes are unreachable - and the shipped specs are well-formed. The model is compared with the library (each run in a child process under ulimit -v and a timeout) on mutated, truncated and adversarial inputs. Wall-clock time and the allocator's behaviour are measured, not proved (partial).",
         "design_ref": "DESIGN.md section 6 C04",
         "note": 'Trusted: Coq kernel, hand-written model (Model/Field.v, Model/Message.v) validated by correspondence on every run, extraction/driver, Go harness incl. the spec/value generators and the property oracle.',
         "technique": "Rocq theorems over a Gallina model + differential correspondence + property oracle",
@@ -86,13 +86,13 @@ TEXT = {
         "technique": "Rocq theorems over a Gallina model + differential correspondence + property oracle",
     },
     "C10": {
-        "text": "Proved for primitive fields, for every composite field (any nesting, all modes) and for whole messages: the outcome of Unpack does not depend on what the object held, and after a successful Unpack neither does the complete state of the object (hence values, nested subfields, re-packed bytes, JSON), for objects in a clean state (every subfield / element that is not set is as new; the element at which the last Unpack failed excepted). Clean is proved to hold for new objects and to be kept by Unpack (whatever its outcome), UnsetField, the setters by id, Message.Marshal of any struct (whatever its outcome), every accepted UnmarshalJSON and UnsetFields by path; failing JSON documents (state depends on Go's map order) are not claimed. Over histories: after any sequence of the state-changing operations of the message API (setters, unset by id and path, Unpack / Marshal whatever their outcome, accepted JSON, Pack, MarshalJSON, Bitmap, Clone) Unpack of any bytes behaves as on a new message. This rests on the repairs F12, F27, F28, F29, F30, all found by the checks. Track fields: model and search.",
+        "text": "Proved for primitive fields, for every composite field (any nesting, all modes) and for whole messages: the outcome of Unpack does not depend on what the object held, and after a successful Unpack neither does the complete state of the object (hence values, nested subfields, re-packed bytes, JSON), for objects in a clean state (every subfield / element that is not set is as new; the element at which the last Unpack failed excepted). Clean is proved to hold for new objects and to be kept by Unpack (whatever its outcome), UnsetField, the setters by id, Message.Marshal of any struct (whatever its outcome), every accepted UnmarshalJSON and UnsetFields by path; failing JSON documents (state depends on Go's map order) are not claimed. Over histories: after any sequence of the state-changing operations of the message API (setters, unset by id and path, Unpack / Marshal whatever their outcome, accepted JSON, Pack, MarshalJSON, Bitmap, Clone) Unpack of any bytes behaves as on a new message. Track fields: the outcome of Unpack does not depend on what the object held, and after an accepted Unpack neither do its components (FixedLength, which Unpack never touches, aside). This rests on the repairs F12, F13, F27, F28, F29, F30, all found by the checks.",
         "design_ref": "DESIGN.md section 6 C10",
         "note": 'Trusted: Coq kernel, hand-written model (Model/Field.v, Model/Message.v) validated by correspondence on every run, extraction/driver, Go harness incl. the spec/value generators and the property oracle.',
         "technique": "Rocq theorems over a Gallina model + differential correspondence + property oracle",
     },
     "C19": {
-        "text": "Proved: every Unpack failure of the message model carries a non-empty field-id path headed by the element at which decoding stopped (MTI 0, bitmap 1, else an announced element at or after the loop position); inside composites the path continues with the tag of the failing subfield and a path of that subfield's specification, at every depth and in all three modes; truncation: any field (primitive or composite of any mode and depth) cut strictly inside its packed bytes is rejected as its own failure with the object left as it was, and a packed message cut at any offset is reported against exactly the element - MTI, bitmap, data element k - that owns the byte at that offset, and the elements before it remain readable (the object holds the MTI and every preceding data element, populated, equivalent to what was packed). The truncation clause is also checked on every truncation offset of generated messages (owner computed independently from element lengths); typing of PackError/UnpackError is glue outside the model and is checked on the library (partial).",
+        "text": "Proved: every Unpack failure of the message model carries a non-empty field-id path headed by the element at which decoding stopped (MTI 0, bitmap 1, else an announced element at or after the loop position); inside composites the path continues with the tag of the failing subfield and a path of that subfield's specification, at every depth and in all three modes; truncation: any field (primitive or composite of any mode and depth) cut strictly inside its packed bytes is rejected as its own failure with the object left as it was, and a packed message cut at any offset is reported against exactly the element - MTI, bitmap, data element k - that owns the byte at that offset, and the elements before it remain readable (the object holds the MTI and every preceding data element, populated, equivalent to what was packed). The truncation clause is also checked on every truncation offset of generated messages (owner computed independently from element lengths); typing: the shape of the wrapping glue is regenerated from message.go / field/composite.go on every run (go/ast) and C19_typed shows that Pack returns nil or a *PackError wrapping the core error, Unpack nil or an *UnpackError with the core error, the id the core loop returned (the numeral of the element being decoded) and the input itself as raw message; what errors.As and FieldIDs() make of it is checked on the library (partial).",
         "design_ref": "DESIGN.md section 6 C19",
         "note": 'Trusted: Coq kernel, hand-written model (Model/Field.v, Model/Message.v) validated by correspondence on every run, extraction/driver, Go harness incl. the spec/value generators and the property oracle.',
         "technique": "Rocq theorems over a Gallina model + differential correspondence + property oracle",
